@@ -55,7 +55,7 @@ def _hist_nontrivial(w):
 def plan(tier, seed):
     specs = []
     from .. import histprop as H_
-    cfgs = [dict(kind='bdd', nmax=4, init_vars=3),
+    cfgs = [dict(kind='bdd', nmax=4, init_vars=3), dict(kind='bdd', nmax=5, init_vars=4, reordering=True, reorder_starts=4), dict(kind='autoref', nmax=4, init_vars=4, reordering=True, reorder_starts=8),
             dict(kind='bdd', nmax=5, init_vars=4),
             dict(kind='autoref', nmax=4, init_vars=3)]
     for s_ in range(8 if tier == 'thorough' else 4):
